@@ -337,6 +337,11 @@ BAD_DIGEST = ["null", "empty", "badb64", "nonul", "nononce", "unterminated", "ju
               "nulinside", "bigjunk"]
 
 
+UNTERMINATED = [b'nonce="abc', b"nonce='abc", b'realm="x",nonce="ab,c', b'nonce="', b"nonce=",
+                b'nonce="abc\\', b'nonce="abc\\"', b'nonce="\\', b'realm="a\\\\",nonce="b\\',
+                b'realm="localhost",nonce="abc\\', b'nonce="a",qop="auth\\', b'nonce="a\\"\\']
+
+
 def mk_bad_digest(rng, kind):
     """-> challenge token as handed to the op (None = NULL), i.e. the BASE64 text or junk"""
     if kind == "null":
@@ -351,8 +356,9 @@ def mk_bad_digest(rng, kind):
         return b64(rng.choice([b'realm="x",qop="auth",charset=utf-8', b'rspauth=0123456789abcdef', b'qop="auth"',
                                b"nonc=abc", b'Nonce="abc"']))
     if kind == "unterminated":
-        return b64(rng.choice([b'nonce="abc', b"nonce='abc", b'realm="x",nonce="ab,c', b'nonce="', b"nonce=",
-                               b'nonce="abc\\', b'nonce="abc\\"', b'nonce="\\', b'realm="a\\\\",nonce="b\\']))
+        return b64(rng.choice(UNTERMINATED))
+    if kind.startswith("unterminated:"):
+        return b64(UNTERMINATED[int(kind.split(":")[1])])
     if kind == "junk":
         return b64(rbytes(rng, rng.randrange(1, 60), list(range(1, 256))))
     if kind == "nokeyeq":
@@ -603,6 +609,9 @@ def generate(rng, tier, override=0):
     for kind in BAD_DIGEST:
         for _ in range((2 if not override else 1) * scale):
             risky.append(gen_bad_digest(rng, kind))
+    for i in range(len(UNTERMINATED)):      # every variant, both entry points, on every run
+        for op in ("digest", "digestx"):
+            risky.append(gen_bad_digest(rng, "unterminated:%d" % i, op))
     for _ in range(4 * scale):
         a = rng.choice(["sha1", "sha256", "sha512"])
         risky.append("hi %s %s %s %d" % (a, hx(rbytes(rng, 8)), hx(rbytes(rng, rng.choice([125, 126, 128, 200, 4096]))), 1))
